@@ -456,7 +456,7 @@ func (p *pkgInfo) checkTable(fn *ast.FuncDecl) []checkRow {
 							if len(call.Args) == 1 {
 								arg = stripGet(lastSel(call.Args[0]))
 							}
-							rows = append(rows, checkRow{arg, "call", lastSel(call.Fun)})
+							rows = append(rows, checkRow{arg, "call", canonName(lastSel(call.Fun))})
 							continue
 						}
 					}
@@ -587,6 +587,98 @@ func mustFunc(p *pkgInfo, name string) *ast.FuncDecl {
 	return f
 }
 
+// pbPointee returns T for an expression of the form *pb.T (else "").
+func pbPointee(e ast.Expr) string {
+	st, ok := e.(*ast.StarExpr)
+	if !ok {
+		return ""
+	}
+	sel, ok := st.X.(*ast.SelectorExpr)
+	if !ok {
+		return ""
+	}
+	if id, ok := sel.X.(*ast.Ident); !ok || id.Name != "pb" {
+		return ""
+	}
+	return sel.Sel.Name
+}
+
+func isIdent(e ast.Expr, name string) bool {
+	id, ok := e.(*ast.Ident)
+	return ok && id.Name == name
+}
+
+func isByteSlice(e ast.Expr) bool {
+	at, ok := e.(*ast.ArrayType)
+	return ok && at.Len == nil && (isIdent(at.Elt, "byte") || isIdent(at.Elt, "uint8"))
+}
+
+func fieldTypes(fl *ast.FieldList) []ast.Expr {
+	var out []ast.Expr
+	if fl == nil {
+		return out
+	}
+	for _, f := range fl.List {
+		n := len(f.Names)
+		if n == 0 {
+			n = 1
+		}
+		for i := 0; i < n; i++ {
+			out = append(out, f.Type)
+		}
+	}
+	return out
+}
+
+// roleFunc finds the function that plays a role for the message type *pb.T, by
+// its name when it still has the expected one, else by its signature (so that
+// renaming an unexported function is not a translation failure):
+//   parse: func([]byte) (*pb.T, ..., error)    check: func(*pb.T) error
+//   ser:   func(*pb.T) ([]byte, error)
+var canon = map[string]string{}
+
+// canonName maps the current name of a function found by its signature back to
+// the name the Coq side uses for it.
+func canonName(n string) string {
+	if c, ok := canon[n]; ok {
+		return c
+	}
+	return n
+}
+
+func roleFunc(p *pkgInfo, name, role, msg string) *ast.FuncDecl {
+	if f := findFunc(p, name); f != nil {
+		return f
+	}
+	var found []*ast.FuncDecl
+	for _, file := range p.files {
+		for _, d := range file.Decls {
+			fd, ok := d.(*ast.FuncDecl)
+			if !ok || fd.Recv != nil || fd.Body == nil {
+				continue
+			}
+			in, out := fieldTypes(fd.Type.Params), fieldTypes(fd.Type.Results)
+			match := false
+			switch role {
+			case "parse":
+				match = len(in) == 1 && isByteSlice(in[0]) && len(out) >= 2 && pbPointee(out[0]) == msg && isIdent(out[len(out)-1], "error")
+			case "check":
+				match = len(in) == 1 && pbPointee(in[0]) == msg && len(out) == 1 && isIdent(out[0], "error")
+			case "ser":
+				match = len(in) == 1 && pbPointee(in[0]) == msg && len(out) == 2 && isByteSlice(out[0]) && isIdent(out[1], "error")
+			}
+			if match {
+				found = append(found, fd)
+			}
+		}
+	}
+	if len(found) != 1 {
+		must(fmt.Errorf("function %s.%s not found (and %d functions have the signature of the %s function of %s)", p.name, name, len(found), role, msg))
+	}
+	canon[found[0].Name.Name] = name
+	return found[0]
+}
+
 func main() {
 	root := flag.String("repo", "/repo", "repository root")
 	out := flag.String("out", "", "output directory (coq/Gen)")
@@ -628,28 +720,34 @@ func main() {
 	must(err)
 	var w bytes.Buffer
 	header(&w, "abi/abi.go")
-	for _, t := range []struct{ name, parse, ser, check string }{
-		{"header", "headerToProto", "HeaderToAbiBytes", "checkHeader"},
-		{"body", "tdQuoteBodyToProto", "TdQuoteBodyToAbiBytes", "checkTDQuoteBody"},
-		{"report", "enclaveReportToProto", "EnclaveReportToAbiBytes", "checkQeReport"},
+	for _, t := range [][2]string{{"checkHeader", "Header"}, {"checkTDQuoteBody", "TDQuoteBody"}, {"checkQeReport", "EnclaveReport"},
+		{"checkEcdsa256BitQuoteV4AuthData", "Ecdsa256BitQuoteV4AuthData"}, {"checkCertificationData", "CertificationData"},
+		{"checkQeReportCertificationData", "QEReportCertificationData"}, {"checkQeAuthData", "QeAuthData"},
+		{"checkPCKCertificateChain", "PCKCertificateChainData"}} {
+		roleFunc(abi, t[0], "check", t[1]) // fills canon before any table is read
+	}
+	for _, t := range []struct{ name, msg, parse, ser, check string }{
+		{"header", "Header", "headerToProto", "HeaderToAbiBytes", "checkHeader"},
+		{"body", "TDQuoteBody", "tdQuoteBodyToProto", "TdQuoteBodyToAbiBytes", "checkTDQuoteBody"},
+		{"report", "EnclaveReport", "enclaveReportToProto", "EnclaveReportToAbiBytes", "checkQeReport"},
 	} {
-		emitRows(&w, t.name+"_parse_table", abi.parseTable(mustFunc(abi, t.parse)))
-		rows, size := abi.serTable(mustFunc(abi, t.ser))
+		emitRows(&w, t.name+"_parse_table", abi.parseTable(roleFunc(abi, t.parse, "parse", t.msg)))
+		rows, size := abi.serTable(roleFunc(abi, t.ser, "ser", t.msg))
 		emitRows(&w, t.name+"_ser_table", rows)
 		fmt.Fprintf(&w, "Definition %s_ser_size : string := %s.\n", t.name, coqString(size))
-		emitChecks(&w, t.name+"_check_table", abi.checkTable(mustFunc(abi, t.check)))
+		emitChecks(&w, t.name+"_check_table", abi.checkTable(roleFunc(abi, t.check, "check", t.msg)))
 		w.WriteString("\n")
 	}
-	for _, t := range []struct{ name, parse, check string }{
-		{"signed", "signedDataToProto", "checkEcdsa256BitQuoteV4AuthData"},
-		{"certdata", "certificationDataToProto", "checkCertificationData"},
-		{"qercd", "qeReportCertificationDataToProto", "checkQeReportCertificationData"},
-		{"auth", "qeAuthDataToProto", "checkQeAuthData"},
-		{"pck", "pckCertificateChainToProto", "checkPCKCertificateChain"},
-		{"quote", "quoteToProtoV4", "CheckQuoteV4"},
+	for _, t := range []struct{ name, msg, parse, check string }{
+		{"signed", "Ecdsa256BitQuoteV4AuthData", "signedDataToProto", "checkEcdsa256BitQuoteV4AuthData"},
+		{"certdata", "CertificationData", "certificationDataToProto", "checkCertificationData"},
+		{"qercd", "QEReportCertificationData", "qeReportCertificationDataToProto", "checkQeReportCertificationData"},
+		{"auth", "QeAuthData", "qeAuthDataToProto", "checkQeAuthData"},
+		{"pck", "PCKCertificateChainData", "pckCertificateChainToProto", "checkPCKCertificateChain"},
+		{"quote", "QuoteV4", "quoteToProtoV4", "CheckQuoteV4"},
 	} {
-		emitRows(&w, t.name+"_parse_table", abi.parseTable(mustFunc(abi, t.parse)))
-		emitChecks(&w, t.name+"_check_table", abi.checkTable(mustFunc(abi, t.check)))
+		emitRows(&w, t.name+"_parse_table", abi.parseTable(roleFunc(abi, t.parse, "parse", t.msg)))
+		emitChecks(&w, t.name+"_check_table", abi.checkTable(roleFunc(abi, t.check, "check", t.msg)))
 		w.WriteString("\n")
 	}
 	must(writeIfChanged(filepath.Join(*out, "AbiTables.v"), w.Bytes()))
